@@ -498,7 +498,7 @@ class BoundedTransform(BaseTransform):
         log_j = self._scale_log_abs_det_jacobian * self.xp.ones(
             y.shape[0], device=get_device(y), dtype=self.dtype
         )
-        return y, log_j
+        return y, log_j * self._columns_per_bound(y)
 
     def from_unit_interval(self, y: Array) -> tuple[Array, Array]:
         """Map from [0, 1] to [lower, upper].
@@ -517,7 +517,17 @@ class BoundedTransform(BaseTransform):
         log_j = -self._scale_log_abs_det_jacobian * self.xp.ones(
             x.shape[0], device=get_device(x), dtype=self.dtype
         )
-        return x, log_j
+        return x, log_j * self._columns_per_bound(x)
+
+    def _columns_per_bound(self, x: Array) -> int:
+        """Number of columns of x each bound applies to.
+
+        Bounds given as a single value are broadcast over every column of x,
+        so the scaling enters the Jacobian once per column.
+        """
+        if self._denom.shape[0] == 1 and x.ndim > 1:
+            return x.shape[-1]
+        return 1
 
     def interval_check(self, lower: Array, upper: Array) -> bool:
         """Check if the interval [lower, upper] is too small"""
